@@ -395,3 +395,37 @@ Theorem number_literal_instances :
   parse_float "-15" 32 = POk 3245342720.
 Proof. exact (conj FloatLit2.number_text_examples FloatLit2.minus_fifteen32). Qed.
 Print Assumptions number_literal_instances.
+
+(* ... and at the level of Evaluate: against a float field, `sel == <number literal>` compares the field (IEEE equality) with the single
+   rounding of the number the literal denotes - by round_rat_nearest a nearest float of the field's width - and is a range error when
+   that number overflows the width. *)
+From Bexpr Require Import C02d.
+Theorem c02_float64_number_literal :
+  forall (re : string -> string -> option bool) (cfg : config) (ls : locals) (s : selector) (d : iface) (t : gtype) (x : Z)
+    (sg : bool) (ip : list Z) (fo : option (list Z)),
+  selects cfg ls s d (Some (t, VF64 x)) -> sclass_of (kind_of_type t) = SF64 ->
+  ip <> [] -> Forall is_digit ip -> frac_ok fo ->
+  let mant := dval (ip ++ frac_digits fo) 0 in
+  let den := 10 ^ Z.of_nat (List.length (frac_digits fo)) in
+  0 < mant ->
+  eval re cfg ls (EMatch s OpEq (Some (number_text sg ip fo))) d =
+  match round_rat mant den 53 (-1074) 971 with
+  | Some me => Out (feq (float_bits sg (Some me) 53 11) x 53 11) None
+  | None => Out false (Some (perr_c PRange)) end.
+Proof. exact C02d.c02_float64_number_literal. Qed.
+Print Assumptions c02_float64_number_literal.
+
+Theorem c02_float32_number_literal :
+  forall (re : string -> string -> option bool) (cfg : config) (ls : locals) (s : selector) (d : iface) (t : gtype) (x : Z)
+    (sg : bool) (ip : list Z) (fo : option (list Z)),
+  selects cfg ls s d (Some (t, VF32 x)) -> sclass_of (kind_of_type t) = SF32 ->
+  ip <> [] -> Forall is_digit ip -> frac_ok fo ->
+  let mant := dval (ip ++ frac_digits fo) 0 in
+  let den := 10 ^ Z.of_nat (List.length (frac_digits fo)) in
+  0 < mant ->
+  eval re cfg ls (EMatch s OpEq (Some (number_text sg ip fo))) d =
+  match round_rat mant den 24 (-149) 104 with
+  | Some me => Out (feq (float_bits sg (Some me) 24 8) x 24 8) None
+  | None => Out false (Some (perr_c PRange)) end.
+Proof. exact C02d.c02_float32_number_literal. Qed.
+Print Assumptions c02_float32_number_literal.
